@@ -746,7 +746,8 @@ as numpy.loadtxt will not work as expected."""
                 self.names,
                 self.dtype,
                 self.allocation,
-                False,
+                True,
+                True,
             ),
         )
 
